@@ -290,20 +290,25 @@ fn is_abort(a: &Sexp) -> bool {
 /// Re-runs the case without the guard in a child process; true iff it died with SIGABRT.
 fn confirm_abort(case_line: &str) -> bool {
     let Ok(exe) = std::env::current_exe() else { return false };
-    let st = std::process::Command::new(exe)
-        .arg("--c19-abort-probe")
-        .arg(case_line)
-        .stdin(std::process::Stdio::null())
-        .stdout(std::process::Stdio::null())
-        .stderr(std::process::Stdio::null())
-        .status();
-    match st {
-        Ok(st) => {
-            use std::os::unix::process::ExitStatusExt;
-            st.signal() == Some(libc::SIGABRT)
+    // a child that could not be started at all (the executable being replaced, fork limits) says nothing
+    // about the program: try again a few times before giving up
+    for attempt in 0..5 {
+        let st = std::process::Command::new(&exe)
+            .arg("--c19-abort-probe")
+            .arg(case_line)
+            .stdin(std::process::Stdio::null())
+            .stdout(std::process::Stdio::null())
+            .stderr(std::process::Stdio::null())
+            .status();
+        match st {
+            Ok(st) => {
+                use std::os::unix::process::ExitStatusExt;
+                return st.signal() == Some(libc::SIGABRT);
+            }
+            Err(_) => std::thread::sleep(Duration::from_millis(200 << attempt)),
         }
-        Err(_) => false,
     }
+    false
 }
 
 /// `wfh --c19-abort-probe '<case>'`: the program for real, Abort mode included.
